@@ -368,10 +368,20 @@ class _rewrite_captured_vars(ast.NodeTransformer):
                 # If it is something we know how to make into a literal, we just send it down
                 # like that.
                 return as_literal(v)
-            elif self._is_registered_function(node.id, v):
+            elif (
+                # (only where it is called: handed on as a value - `seq.Select(one)` - it is a
+                # helper like any other)
+                getattr(node, "_is_called", False)
+                and (registered_as := self._registered_name(v)) is not None
+                and (registered_as == node.id or not self.is_arg(registered_as))
+            ):
                 # A function registered for use in queries (`func_adl_callable`) stays a call by
-                # name whatever its python body is: its processor runs at the call site.
-                return node
+                # name whatever its python body is: its processor runs at the call site. The
+                # name is the one it is registered under - the query may know it under another
+                # (`from m import one as uno`, `f = one`).
+                if registered_as == node.id:
+                    return node
+                return ast.Name(id=registered_as, ctx=ast.Load())
             elif (
                 callable(v)
                 and not any(v is f for f in self._inlining)
@@ -554,8 +564,17 @@ class _rewrite_captured_vars(ast.NodeTransformer):
     def visit_Call(self, node: ast.Call) -> Any:
         "If the rewritten call turns into an actual function, then we have to bail,"
         old_func = node.func
+        if isinstance(old_func, ast.Name):
+            old_func._is_called = True  # type: ignore
         rewritten_call = cast(ast.Call, super().generic_visit(node))
-        if isinstance(rewritten_call.func, ast.Constant) and not (
+        if (
+            isinstance(rewritten_call.func, ast.Constant)
+            and (registered_as := self._registered_name(rewritten_call.func.value)) is not None
+            and not self.is_arg(registered_as)
+        ):
+            # `m.one(x)`: a registered function reached through its module
+            rewritten_call.func = ast.Name(id=registered_as, ctx=ast.Load())
+        elif isinstance(rewritten_call.func, ast.Constant) and not (
             is_dataclass(rewritten_call.func.value)
             or hasattr(rewritten_call.func.value, "_fields")
         ):
@@ -582,12 +601,14 @@ class _rewrite_captured_vars(ast.NodeTransformer):
         return rewritten_call
 
     @staticmethod
-    def _is_registered_function(name: str, v: Any) -> bool:
-        "Is `v` the function registered under `name` with `register_func_adl_function`?"
+    def _registered_name(v: Any) -> Optional[str]:
+        "The name `v` is registered under with `register_func_adl_function` (or None)"
         from . import type_based_replacement
 
-        info = type_based_replacement._global_functions.get(name, None)
-        return info is not None and info.function is v
+        for name, info in type_based_replacement._global_functions.items():
+            if info.function is v:
+                return name
+        return None
 
     def is_arg(self, a_name: str) -> bool:
         "If the arg is on the stack, then return true"
